@@ -353,12 +353,9 @@ func (i *interpreter) concKey(k value) value {
 func lookup(i *interpreter, instr *ssa.Lookup, x, idx value) value {
 	switch x := x.(type) { // map or string
 	case *omap:
-		v, ok := x.lookup(i.concKey(idx))
-		if !ok {
-			v = zero(instr.X.Type().Underlying().(*types.Map).Elem())
-		}
+		v, ok := i.mapLookup(x, idx, zero(instr.X.Type().Underlying().(*types.Map).Elem()))
 		if instr.CommaOk {
-			v = tuple{v, ok}
+			return tuple{v, ok}
 		}
 		return v
 	case string, sstr:
